@@ -480,3 +480,90 @@ end peaks
 end SignaloModel.Registry
 
 #print axioms SignaloModel.Registry.peaks_registry_correct
+
+namespace SignaloModel.Registry
+open SignaloModel
+
+section emed
+variable {α : Type} [Add α] [Sub α] [Mul α]
+
+theorem emedRec_snoc (p m q : α) (pre : List α) (x : α) :
+    Spec.emedRec p m q (pre ++ [x]) =
+      some (match Spec.emedRec p m q pre with
+        | none => (x, x)
+        | some (ps, prev) =>
+          (ps + (x - ps) * p, prev + ((prev + ((ps + (x - ps) * p) - prev) * m) - prev) * q)) := by
+  simp only [Spec.emedRec, List.foldl_append, List.foldl_cons, List.foldl_nil]
+  cases List.foldl _ none pre with
+  | none => rfl
+  | some s => obtain ⟨ps, prev⟩ := s; rfl
+
+/-- state of the exponential median after a history: (pre-average, previous output) of the recurrence; the post
+average's state is the previous output -/
+theorem emed_state (p m q : α) (xs : List α) :
+    let s := (stepRun (Smooth.emedStep p m q) { pre := none, post := none, median := none } xs).1
+    (match s.pre, s.median with | some a, some b => some (a, b) | _, _ => none) = Spec.emedRec p m q xs ∧
+      s.post = s.median ∧ (s.pre = none ↔ s.median = none) := by
+  induction xs using snocInd with
+  | nil => exact ⟨rfl, rfl, Iff.rfl⟩
+  | snoc xs x ih =>
+    simp only at ih ⊢
+    rw [stepRun_append, emedRec_snoc, ← ih.1]
+    generalize (stepRun (Smooth.emedStep p m q) { pre := none, post := none, median := none } xs).1 = s at ih ⊢
+    obtain ⟨pre, post, med⟩ := s
+    obtain ⟨_, hpost, hiff⟩ := ih
+    simp only at hpost hiff
+    cases pre with
+    | none =>
+      have h1 : med = none := hiff.mp rfl
+      subst h1
+      have h2 : post = none := hpost
+      subst h2
+      simp [stepRun, Smooth.emedStep, Smooth.emaStep]
+    | some a =>
+      cases med with
+      | none => exact absurd (hiff.mpr rfl) (by simp)
+      | some b =>
+        have h2 : post = some b := hpost
+        subst h2
+        simp [stepRun, Smooth.emedStep, Smooth.emaStep]
+
+end emed
+
+variable {α : Type} [Add α] [Sub α] [Mul α] [Div α] [Neg α] [OfNat α 0] [OfNat α 1]
+  [LT α] [DecidableLT α] [BEq α] [Median.POrd α] [Classify.Cmp α]
+
+/-- **C13 (exponential median) at registry level**: output `k` is `post(prev + mid·(pre(x[k]) − prev))`, `out[0] = x[0]`,
+evaluated on the first `k+1` samples — for every sample type and all gains -/
+theorem emedian_registry_correct (p m q : α) (xs : List α) :
+    ∃ s' ys, (Cfg.emedian p m q).init.run (sing xs) = some (s', sing ys) ∧ ys.length = xs.length ∧
+      ∀ k x, xs[k]? = some x → (ys[k]?).map some = some ((Spec.emedRec p m q (xs.take (k + 1))).map (·.2)) := by
+  have hrun := run_of_step (St.emedian p m q) (Smooth.emedStep p m q) (by intro s x; simp [St.filter])
+    { pre := none, post := none, median := none } xs
+  refine ⟨_, _, hrun, stepRun_length _ _ _, ?_⟩
+  intro k x hx
+  rw [stepRun_getElem _ _ _ k x hx, take_succ_snoc xs k x hx, emedRec_snoc]
+  obtain ⟨hst, hpost, hiff⟩ := emed_state p m q (xs.take k)
+  rw [← hst]
+  generalize (stepRun (Smooth.emedStep p m q) { pre := none, post := none, median := none } (xs.take k)).1 = s
+    at hpost hiff ⊢
+  obtain ⟨pre, post, med⟩ := s
+  simp only at hpost hiff
+  cases pre with
+  | none =>
+    have h1 : med = none := hiff.mp rfl
+    subst h1
+    have h2 : post = none := hpost
+    subst h2
+    simp [Smooth.emedStep, Smooth.emaStep]
+  | some a =>
+    cases med with
+    | none => exact absurd (hiff.mpr rfl) (by simp)
+    | some b =>
+      have h2 : post = some b := hpost
+      subst h2
+      simp [Smooth.emedStep, Smooth.emaStep]
+
+end SignaloModel.Registry
+
+#print axioms SignaloModel.Registry.emedian_registry_correct
